@@ -2,7 +2,7 @@
 import os, sys
 sys.path.insert(0, '/verif'); sys.setrecursionlimit(10000)
 from selfval.mut import run_rules, overrides_from_patch
-d, pid = sys.argv[1], sys.argv[2]
+d, pid = os.path.abspath(sys.argv[1]), sys.argv[2]
 flt = sys.argv[3] if len(sys.argv) > 3 else ""
 st, chk = run_rules(pid, overrides_from_patch(os.path.join(d, "patch.diff")))
 print(st, getattr(chk, "error", ""))
